@@ -86,6 +86,9 @@ func dispatch(what, tier string, seed uint64, replay string) int {
 		}
 		return lc.run(a, tier, seed)
 	}
+	if what == "C11" {
+		return c11Check(a, tier, seed, replay)
+	}
 	if what == "C07" {
 		return c07Check(a, tier, seed, replay)
 	}
